@@ -294,7 +294,10 @@ void adapter_exec(Ev *ev)
             areas[i].base = (RegisterAddress)A[i].base + SH;
             areas[i].size = (RegisterOffset)A[i].size;
             areas[i].flags = (uint16_t)((A[i].rd ? REG_AF_READABLE : 0) | (A[i].wr ? REG_AF_WRITEABLE : 0) | (A[i].skip ? REG_AF_SKIP_DEFAULTS : 0));
-            if (A[i].kind == 0 || A[i].kind == 3) {
+            if (A[i].kind == 4) {
+                /* kind 4: a placeholder - zero size, no functions, no memory - at a non-zero base (only the base tells it from the end mark) */
+                areas[i].mem = NULL; areas[i].read = NULL; areas[i].write = NULL;
+            } else if (A[i].kind == 0 || A[i].kind == 3) {
                 areas[i].mem = store[i];
                 areas[i].read = A[i].kind == 3 ? NULL : reg_mem_read;      /* kind 3: an area without a read function (write-only device) */
                 areas[i].write = A[i].hasw ? reg_mem_write : NULL;
